@@ -104,6 +104,7 @@ class BaseConstructor:
             generator = data
             data = next(generator)
             if self.deep_construct:
+                self.constructed_objects[node] = data
                 for dummy in generator:
                     pass
             else:
